@@ -162,8 +162,17 @@ pub fn resolve_encoding<'encoding>(
                 }
             }
             
-            report.message(
-                diagn::Message::fuse_topmost(msgs));
+            if msgs.is_empty()
+            {
+                report.error_span(
+                    "failed to resolve instruction",
+                    instr_span);
+            }
+            else
+            {
+                report.message(
+                    diagn::Message::fuse_topmost(msgs));
+            }
         }
 
         return Ok(None);
